@@ -6,6 +6,7 @@ import (
 	"encoding/json"
 	"fmt"
 	"math"
+	"sort"
 	"strconv"
 	"strings"
 	"testing"
@@ -29,9 +30,11 @@ type Case struct {
 	Start *int64 `json:"start"` // slice form
 	Stop  *int64 `json:"stop"`
 	Step  *int64 `json:"step"`
-	Route string `json:"route"` // ast | source
-	Got   string `json:"got,omitempty"`
-	Want  string `json:"want,omitempty"`
+	Route string `json:"route"` // ast | source | aged
+	// aged route: statements that use the receiver `r` (and values derived from it) before it is indexed
+	Pre  []string `json:"pre,omitempty"`
+	Got  string   `json:"got,omitempty"`
+	Want string   `json:"want,omitempty"`
 }
 
 var asciiRunes = []rune("abcdefghijklmnopqrstuvwxyzABCDEFGHIJKLMNOPQRSTUVWXYZ0123456789")
@@ -119,7 +122,12 @@ func indexSrc(c Case) string {
 	return s + "]"
 }
 
-func source(c Case) string { return recvSrc(c) + indexSrc(c) }
+func source(c Case) string {
+	if c.Route == "aged" {
+		return "r := " + recvSrc(c) + "; " + strings.Join(c.Pre, "; ") + "; r" + indexSrc(c)
+	}
+	return recvSrc(c) + indexSrc(c)
+}
 
 func toObj(p *int64) object.PanObject {
 	if p == nil {
@@ -135,6 +143,9 @@ func eval(c Case) interp.Outcome {
 	}
 	env := object.NewEnclosedEnv(in.Global)
 	interp.Bind(env, "r", recvObj(c))
+	for _, st := range c.Pre {
+		in.Run(st, interp.Opts{Env: env})
+	}
 	if c.Form == "index" {
 		interp.Bind(env, "i", object.NewPanInt(c.I))
 	} else {
@@ -453,6 +464,74 @@ func TestRandomSource(t *testing.T) {
 	vt.Check(t, vt.N(30000, 1500000), func(rt *rapid.T) {
 		vt.Class("random source")
 		run(rt, genCase("source", 12).Draw(rt, "case"), true)
+	})
+}
+
+// ---- aged receivers: the sequence has been used (sliced, repeated, iterated, passed to built-ins) before it is indexed ----
+
+var agingForms = []string{
+	"r._incBy(1)", "r._incBy(-1)", "(r:r._incBy(2)).A", "(r:r._incBy(3)).A.len", "b := r[0:2]; b * 2", "b := r[:3]; b * 3", "b := r[1:2]; b + b + b", "r * 2", "r + r", "r[1:] + r[:1]",
+	"b := r[0:%[1]d]; b * %[2]d", "b := r[%[1]d:%[2]d]; c := b + r[:1]; d := b + r[1:]", "b := r[:%[1]d]; b * 2; b * 3", "b := r[::-1]; b * 2", "b := r[%[1]d:]; b + b",
+	"r.rev", "r.sort", "r.uc", "r.lc", "r.len", "r.A", "r.S", "r.repr", "r@{|x| x}", "r@{|x| [x]}", "r.push(1)", "[*r, 1]", "[*r[:2], 1, 2]", "r == r", "r.has?(r[0])", "r.T", "r.sum", "r.max", "r.min", "r.uniq", "r.first", "r.last",
+	"r[%[1]d]", "r[%[1]d:%[2]d]", "r[::%[2]d]", "r[-%[1]d:]", "b := r[%[1]d:%[2]d]; b[0]; b[::-1]", "r.try.rev.val", "r$(r[:0]){|a, x| a + r[:1]}", "r.ord", "r.sym", "r.I", "r.split(\"\")", "r.sub(\"a\", \"bb\")", "r / \"\"",
+	"r.at([0])", "r.at([(%[1]d:%[2]d)])", "r.bear", "{k: r}.k * 2", "f := {|x| x * 2}; f(r[:%[1]d])", "[r[:%[1]d]]@*(%[2]d)",
+}
+
+func genAged(t *rapid.T) Case {
+	c := genCase("aged", 12).Draw(t, "case")
+	props := propsOfSeq(recvObj(c))
+	for n := rapid.IntRange(1, 4).Draw(t, "naging"); n > 0; n-- {
+		if rapid.IntRange(0, 3).Draw(t, "auto") == 0 && len(props) > 0 {
+			c.Pre = append(c.Pre, fmt.Sprintf("r.%s(%s)", rapid.SampledFrom(props).Draw(t, "prop"), rapid.SampledFrom([]string{"", "1", "2", "r", "r, 1", "0, 2", "r[:1]", "{|x| x}"}).Draw(t, "args")))
+			continue
+		}
+		f := rapid.SampledFrom(agingForms).Draw(t, "aging")
+		a, b := rapid.IntRange(0, c.N+1).Draw(t, "p1"), rapid.IntRange(1, 4).Draw(t, "p2")
+		if strings.Contains(f, "%[1]d:%[2]d") {
+			b = rapid.IntRange(0, c.N+1).Draw(t, "p2b")
+		}
+		if strings.Contains(f, "%[") {
+			f = fmt.Sprintf(f, a, b)
+			if k := strings.Index(f, "%!("); k >= 0 { // a form that uses only one of the two numbers
+				f = f[:k]
+			}
+		}
+		c.Pre = append(c.Pre, f)
+	}
+	return c
+}
+
+var seqSkip = map[string]bool{"p": true, "puts": true, "print": true, "exit": true, "serve": true, "read": true, "readline": true, "readLines": true, "import": true, "invite!": true, "eval": true, "evalEnv": true, "write": true, "assert": true, "assertEq": true, "assertRaises": true}
+
+func propsOfSeq(o object.PanObject) []string {
+	names := map[string]bool{}
+	for x := o; x != nil; x = x.Proto() {
+		if po, ok := x.(*object.PanObj); ok {
+			for _, p := range *po.Pairs {
+				if s, ok := p.Key.(*object.PanStr); ok && !strings.HasPrefix(s.Value, "\\") && !seqSkip[s.Value] {
+					names[s.Value] = true
+				}
+			}
+		}
+	}
+	out := []string{}
+	for k := range names {
+		out = append(out, k)
+	}
+	sort.Strings(out)
+	return out
+}
+
+func TestAgedReceivers(t *testing.T) {
+	vt.Check(t, vt.N(20000, 1000000), func(rt *rapid.T) {
+		vt.Class("aged receiver")
+		c := genAged(rt)
+		o := eval(c)
+		vt.Eval()
+		vt.NonTrivial(source(c), func() any { return source(c) + " => " + o.Show() })
+		if sig, detail := judge(&c, o); sig != "" {
+			vt.Fail(rt, "aged:"+sig, detail, c)
+		}
 	})
 }
 
